@@ -127,11 +127,13 @@ def run(rep, pdb, tier):
         if ok:
             e = es[0]
             r = for_range(ctx, e.loops[0])
-            acc = ctx.binds.get(e.target[1])
+            acc = ctx.binds.get(e.target[1]) if e.target[0] == "var" else None
             init = ctx.term(acc.init) if acc is not None and acc.init is not None else None
             okinit = is_zero_term(init) if start_off == 0 else init == ("idx", VEC0, P(1))
-            ok = e.op == op and e.value == ("idx", VEC0, r[0]) and r[1] == lin_add(P(1), num(start_off)) and r[2] == P(2) and r[3] and not r[4] and okinit and \
-                ctx.term(fn["body"]["expr"]) == e.target
+            # the range ends after `end`: `start..=end` or `start..end+1`
+            end_excl = (lin_add(r[2], num(1)) if r[3] else r[2]) if r is not None else None
+            ok = r is not None and e.op == op and e.value == ("idx", VEC0, r[0]) and r[1] == lin_add(P(1), num(start_off)) and end_excl == lin_add(P(2), num(1)) and not r[4] and okinit and \
+                fn["body"].get("expr") is not None and ctx.term(fn["body"]["expr"]) == e.target
         rep.add("slices/%s" % name, rule, ok, fn["body"], "guards=%s" % g, where=loc(fn["body"]))
     for name, callee in (("sum", "sum_slice"), ("product", "product_slice")):
         fn = pdb.fn("%s::%s" % (V, name))
@@ -291,6 +293,16 @@ def run(rep, pdb, tier):
         ctx = Ctx.for_fn(pdb, fn)
         es = [e for e in effects(pdb, ctx) if e.kind == "set"]
         ok = len(es) == 1
+        if not ok and want in ("conj", "real"):
+            # `self.vec.iter().map(|z| z.conj()).collect()`: a fresh vector built element by element
+            from .common import fresh_map
+            fm = fresh_map(pdb, ctx)
+            if fm is not None:
+                src = ("idx", VEC0, fm["i"])
+                okv = fm["value"] == (("call", "complex::Complex<T>::conj", src) if want == "conj" else ("field", src, "real"))
+                rep.add("assign-conj-real/%s" % key, rule, okv and fm["lo"] == num(0) and fm["hi"] in (N0, LEN(VEC0)) and not any(n_.get("k") == "Ret" for n_ in walk(fn["body"])),
+                        fn["body"], "built by %s" % fm["kind"], where=loc(fn["body"]))
+                continue
         if ok:
             e = es[0]
             r = for_range(ctx, e.loops[0])
